@@ -191,6 +191,7 @@ func (c *Conn) Begin() (driver.Tx, error) {
 
 	tx, err := c.targetConn.Begin()
 	if err != nil {
+		c.autoCommit = true
 		return nil, err
 	}
 
